@@ -57,7 +57,13 @@ func (r *Report) Merge(o *Report) {
 	}
 	r.NViolations += o.NViolations
 	for _, v := range o.Violations {
-		if len(r.Violations) < 20 {
+		dup := false
+		for _, e := range r.Violations {
+			if e.Identity == v.Identity {
+				dup = true
+			}
+		}
+		if !dup && len(r.Violations) < 60 {
 			r.Violations = append(r.Violations, v)
 		}
 	}
@@ -93,7 +99,14 @@ func (r *Report) Merge(o *Report) {
 // AddViolation records a violation (details kept for the first few only).
 func (r *Report) AddViolation(v Violation) {
 	r.NViolations++
-	if len(r.Violations) < 10 {
+	// details are kept for the first occurrence of each identity (up to 40 identities), so that a
+	// flood of one kind of violation cannot hide a different one
+	for _, e := range r.Violations {
+		if e.Identity == v.Identity {
+			return
+		}
+	}
+	if len(r.Violations) < 40 {
 		v.Property = r.Property
 		v.Sub = r.Sub
 		r.Violations = append(r.Violations, v)
